@@ -30,7 +30,7 @@ var rotCommands = [][]string{
 	{"print"}, {"print", "--with-totals"}, {"print", "--sort=asc"}, {"print", "--no-style"},
 	{"total"}, {"total", "--diff"}, {"total", "--now"}, {"total", "--today", "--now"}, {"total", "--tag=x"}, {"total", "--since=2024-03-10"},
 	{"report"}, {"report", "--aggregate=week"}, {"report", "--aggregate=month", "--fill"}, {"report", "--aggregate=quarter", "--diff"},
-	{"report", "--aggregate=year", "--decimal"}, {"report", "--fill", "--now"}, {"report", "--chart"},
+	{"report", "--aggregate=year", "--decimal"}, {"report", "--fill", "--now"}, {"report", "--chart"}, {"report", "--fill"}, {"report", "--fill", "--aggregate=week"}, {"report", "--fill", "--aggregate=quarter"}, {"report", "--aggregate=year", "--fill"}, {"today", "--now"}, {"print", "--with-totals", "--sort=desc"}, {"total", "--this-year"}, {"total", "--last-week"}, {"report", "--period=9999"}, {"total", "--until=0000-01-05"},
 	{"tags"}, {"tags", "--values"}, {"tags", "--count"},
 	{"today"}, {"today", "--diff", "--now"},
 	{"json"}, {"json", "--pretty"}, {"json", "--now"},
@@ -42,10 +42,27 @@ var rotCommands = [][]string{
 func (rotEngine) generate(property string, seed int64, index int, tier string) *Scenario {
 	r := newRng(seed, "rot", property, fmt.Sprint(index))
 	now := time.Date(2024, 3, 15, 12, 0, 0, 0, time.UTC).Add(time.Duration(r.Intn(86400)) * time.Second)
-	d := genDoc(r, docOpts{today: now, maxRecords: r.Pick2([]int{1, 2, 3, 5, 8}), wantOpen: r.Pick2([]int{0, 0, 1})})
+	docToday := now
+	edge := ""
+	if r.Chance(1, 12) {
+		// records at the edges of the calendar (the parser accepts years 0000-9999)
+		switch r.Intn(4) {
+		case 0:
+			docToday, edge = time.Date(9999, 12, 31, 12, 0, 0, 0, time.UTC), "+cal9999"
+		case 1:
+			docToday, edge = time.Date(0, 1, 1, 12, 0, 0, 0, time.UTC).AddDate(0, 0, r.Range(0, 20)), "+cal0000"
+		case 2:
+			docToday, edge = time.Date(r.Range(1990, 2030), 1, 1, 12, 0, 0, 0, time.UTC).AddDate(0, 0, r.Range(0, 3)), "+newyear"
+		default:
+			docToday, edge = time.Date(2024, 3, 1, 12, 0, 0, 0, time.UTC).AddDate(0, 0, r.Range(-1, 1)), "+leap"
+		}
+	}
+	d := genDoc(r, docOpts{today: docToday, maxRecords: r.Pick2([]int{1, 2, 3, 5, 8}), wantOpen: r.Pick2([]int{0, 0, 1}), noFuture: edge == "+cal9999", noEarlier: edge == "+cal0000"})
 	text := d.render()
-	origin := "valid"
-	if !r.Chance(1, 8) {
+	origin := "valid" + edge
+	if edge != "" && r.Chance(1, 2) {
+		// keep half of the calendar-edge documents undamaged: evaluation of accepted input
+	} else if !r.Chance(1, 8) {
 		nd := r.Pick2([]int{1, 1, 1, 2, 3})
 		var kinds []string
 		for i := 0; i < nd; i++ {
@@ -53,7 +70,7 @@ func (rotEngine) generate(property string, seed int64, index int, tier string) *
 			text = damage(r, text, k)
 			kinds = append(kinds, k)
 		}
-		origin = "damaged:" + strings.Join(kinds, "+")
+		origin = "damaged:" + strings.Join(kinds, "+") + edge
 	}
 	if r.Chance(1, 15) {
 		// what a torn write leaves: a prefix cut at an arbitrary byte
@@ -135,7 +152,15 @@ func (rotEngine) execute(sc *Scenario) *Outcome {
 	if rc.Debug {
 		env["KLOG_DEBUG"] = "1"
 	}
+	spanDays := recordSpanDays(text)
 	for ci, cmd := range rc.Cmds {
+		if spanDays > 1500 && containsArg(cmd, "--fill") {
+			// `report --fill` costs time proportional to (and, in klog today, worse than linear in)
+			// the number of days between the first and the last record; a bit flip in a year
+			// digit makes that centuries. Slow is not hung: such cases are not run (bounded runs).
+			out.stat("fill_skipped_large_span", 1)
+			continue
+		}
 		_ = os.WriteFile(file, []byte(text), 0o644)
 		argv := append(append([]string{}, cmd...), file)
 		spec := &ProcSpec{Argv: argv, Tape: rc.Tape, Cpus: rc.Cpus, Root: root, Env: env, Base: time.Unix(rc.NowUnix, 0).UTC()}
@@ -237,3 +262,22 @@ func (rotEngine) shrink(sc *Scenario) []*Scenario {
 }
 
 var mutatingCmd = map[string]bool{"track": true, "start": true, "stop": true, "switch": true, "pause": true, "create": true}
+
+// recordSpanDays: days between the earliest and the latest record of a text the parser accepts (0 otherwise).
+func recordSpanDays(text string) int {
+	ds := parseSerialDumpRecords(text)
+	if len(ds) == 0 {
+		return 0
+	}
+	lo, hi := 1<<60, -(1 << 60)
+	for _, d := range ds {
+		t := int(time.Date(d.Y, time.Month(d.M), d.D, 0, 0, 0, 0, time.UTC).Unix() / 86400)
+		if t < lo {
+			lo = t
+		}
+		if t > hi {
+			hi = t
+		}
+	}
+	return hi - lo
+}
